@@ -415,7 +415,7 @@ def no_answer(r):
     return bool(r.get("missing")) or "bad_response" in r
 
 
-def batch_all(exe, reqs, timeout=150, single_timeout=10):
+def batch_all(exe, reqs, timeout=600, single_timeout=20):
     """oracle.batch, but a request that kills the process (stack overflow, abort: not catchable by catch_unwind) or
     never returns only costs its own answer: unanswered requests are re-run one process each with a short timeout;
     the ones that still get no answer are returned as {"died": <stderr tail or "timeout">}."""
@@ -455,7 +455,10 @@ def cli_crash(exe, src, cmds=("check", "format", "reftest-ast", "run"), timeout=
         for c in cmds:
             rc, out, err = oracle.garden_cli(exe, [c, p], timeout=timeout, cwd=d, stdin="")
             if rc == 124 and c != "run":
-                return c, "timeout: `garden %s` did not finish within %d s (hang)" % (c, timeout)
+                # a slow machine is not a hang: confirm once with a much longer limit
+                rc, out, err = oracle.garden_cli(exe, [c, p], timeout=3 * timeout, cwd=d, stdin="")
+                if rc == 124:
+                    return c, "timeout: `garden %s` did not finish within %d s (hang)" % (c, 3 * timeout)
             if rc == 101 or "panicked at" in err or rc < 0 or rc in (134, 139) or "has overflowed its stack" in err:
                 m = PANIC_RE.search(err)
                 return c, (m.group(1) if m else "stack overflow" if "overflowed its stack" in err else "exit status %d" % rc)
@@ -498,12 +501,24 @@ def crash_class(loc):
 
 
 def report_crash(ctx, exe, src, how, loc):
+    if "timeout" in loc and how == "hook:sexp":
+        # a slow machine is not a hang: confirm with a much longer limit before anything is reported
+        r = batch_all(exe, [{"op": "sexp", "src": src}], timeout=60, single_timeout=60)[0]
+        if not crashed(r):
+            ctx.stat("slow answer taken for a hang at first (machine load), not a finding")
+            return
     def fails_hook(s):
         return crashed(batch_all(exe, [{"op": "sexp", "src": s}], timeout=10)[0])
 
     def fails_cli(s):
         return cli_crash(exe, s, cmds=(how,)) is not None
-    small = ddmin(src, fails_hook if how == "hook:sexp" else fails_cli, max_tests=250 if how == "hook:sexp" else 60)
+    if "timeout" in loc:
+        # shrinking a hang costs one full timeout per test: only in the thorough tier, with short limits
+        def hangs(s):
+            return cli_crash(exe, s, cmds=("check",), timeout=3) is not None
+        small = ddmin(src, hangs, max_tests=40) if ctx.thorough else src
+    else:
+        small = ddmin(src, fails_hook if how == "hook:sexp" else fails_cli, max_tests=250 if how == "hook:sexp" else 60)
     cli = cli_crash(exe, small)
     if cli:
         cmd, loc2 = cli
